@@ -30,9 +30,8 @@ BOUNDS = {
     # implicit: implicit-name sweep; compose: corpus bound for the composition sweep
     'quick': dict(full=[(1, 1, 2), (2, 1, 2), (3, 1, 1)], dev1=[(3, 1, 2), (4, 0, 1)], named=[(4, 1, 1), (5, 0, 1), (6, 0, 0), (7, 0, 0)],
                   implicit=[(1, 1, 1), (2, 1, 1), (3, 1, 0), (4, 0, 0)], compose=(2, 1, 1)),
-    'thorough': dict(full=[(1, 2, 2), (2, 2, 2), (3, 1, 2)], dev1=[(3, 2, 2), (4, 1, 2), (5, 1, 1)],
-                     named=[(4, 2, 2), (5, 1, 2), (6, 1, 1)], implicit=[(1, 1, 1), (2, 1, 1), (3, 1, 1), (4, 1, 0), (5, 0, 0)],
-                     compose=(3, 1, 1)),
+    'thorough': dict(full=[(1, 2, 2), (2, 2, 2), (3, 1, 2)], dev1=[(3, 2, 2), (4, 1, 1)], named=[(4, 2, 2), (5, 1, 1), (6, 0, 1), (7, 0, 0)],
+                     implicit=[(1, 1, 1), (2, 1, 1), (3, 1, 1), (4, 0, 0)], compose=(2, 1, 1)),
 }
 NSH = 48
 
